@@ -310,8 +310,53 @@ def _lattice_polygon(rng):
     return A
 
 
+def _degenerate(rng):
+    """round 4: the degenerate inputs of the hull scan (and thin/euler on them): one pixel, two pixels, all pixels collinear
+    (a row, a column, a diagonal, a line of slope 1:2 / 2:1 / 1:3 with gaps), a collinear set plus ONE pixel off the line, exactly
+    three / four pixels (the code returns <= 3 points unscanned), the four corners, two parallel lines"""
+    r, c = rng.randint(1, 14), rng.randint(1, 14)
+    A = np.zeros((r, c), bool)
+    kind = rng.choice(['one', 'two', 'row', 'col', 'diag', 'slope', 'line+1', 'three', 'four', 'corners', 'parallel'])
+    rp = lambda: (rng.randrange(r), rng.randrange(c))
+    if kind == 'one':
+        A[rp()] = True
+    elif kind == 'two':
+        A[rp()] = True; A[rp()] = True
+    elif kind == 'row':
+        y = rng.randrange(r)
+        A[y, :] = [rng.random() < 0.7 for _ in range(c)]; A[y, rng.randrange(c)] = True
+    elif kind == 'col':
+        x = rng.randrange(c)
+        A[:, x] = [rng.random() < 0.7 for _ in range(r)]; A[rng.randrange(r), x] = True
+    elif kind in ('diag', 'slope', 'line+1', 'parallel'):
+        dy, dx = rng.choice([(1, 1), (1, -1)]) if kind == 'diag' else rng.choice([(1, 1), (1, -1), (1, 2), (2, 1), (1, 3), (1, -2), (2, -1), (0, 1), (1, 0)])
+        y, x = (0, 0) if dx >= 0 else (0, c - 1)
+        y, x = y + rng.randrange(max(1, r // 3)), x + (rng.randrange(max(1, c // 3)) if dx >= 0 else -rng.randrange(max(1, c // 3)))
+        y0, x0 = y, x
+        while 0 <= y < r and 0 <= x < c:
+            if rng.random() < 0.8:
+                A[y, x] = True
+            y, x = y + dy, x + dx
+        A[y0, x0] = True
+        if kind == 'line+1':
+            A[rp()] = True
+        if kind == 'parallel':
+            sy, sx = rng.choice([(0, 1), (1, 0), (0, 2), (2, 0)])
+            B = np.zeros_like(A)
+            B[sy:, sx:] = A[:r - sy, :c - sx]
+            A |= B
+    elif kind in ('three', 'four'):
+        for _ in range(3 if kind == 'three' else 4):
+            A[rp()] = True
+    else:
+        A[0, 0] = A[0, -1] = A[-1, 0] = A[-1, -1] = True
+    return A, 'degenerate:' + kind
+
+
 def _rand_image(rng):
     style = rng.random()
+    if style >= 0.06 and style < 0.14:
+        return _degenerate(rng)
     if style < 0.06:
         return _lattice_polygon(rng), 'lattice-polygon'
     r = rng.choice([1, 2, 3, 5, 8, 13, 21, 40]) if rng.random() < 0.4 else rng.randint(1, 40)
